@@ -353,6 +353,176 @@ theorem C14_cycle_refused (c : Core) (fsys : FileSys) (kw : Lexeme) (c' : Core)
     | (cases h; done)
     | (rename_i hno; exact hno hcyc)
 
+/-! ### what `joinDir` hands to the file system: a path below the root file's directory -/
+
+theorem sp_nil : splitOn47 [] = [[]] := rfl
+
+theorem sp_cons (c : UInt8) (t : Bytes) :
+    splitOn47 (c :: t) = if c == 47 then [] :: splitOn47 t
+      else ((c :: (splitOn47 t).headD []) :: (splitOn47 t).tail) := by
+  simp only [splitOn47, List.foldr_cons]
+  split <;> simp
+
+theorem sp_ne_nil (b : Bytes) : splitOn47 b ≠ [] := by
+  cases b with
+  | nil => simp [sp_nil]
+  | cons c t => rw [sp_cons]; split <;> simp
+
+theorem sp_head_tail (b : Bytes) : splitOn47 b = (splitOn47 b).headD [] :: (splitOn47 b).tail := by
+  have := sp_ne_nil b
+  cases h : splitOn47 b with
+  | nil => exact absurd h this
+  | cons x xs => rfl
+
+/-- splitting at a separator splits the segment lists -/
+theorem sp_append_sep (a b : Bytes) : splitOn47 (a ++ 47 :: b) = splitOn47 a ++ splitOn47 b := by
+  induction a with
+  | nil => simp [sp_cons, sp_nil]
+  | cons c a' ih =>
+    simp only [List.cons_append]
+    rw [sp_cons, sp_cons c a', ih]
+    split
+    · simp
+    · rw [sp_head_tail a']
+      simp
+
+theorem sp_no47 (s : Bytes) (h : 47 ∉ s) : splitOn47 s = [s] := by
+  induction s with
+  | nil => rfl
+  | cons c t ih =>
+    have hc : c ≠ 47 := fun e => h (by simp [e])
+    have ht : 47 ∉ t := fun e => h (by simp [e])
+    rw [sp_cons, ih ht]
+    simp [hc]
+
+theorem sp_segs_no47 (b : Bytes) : ∀ s ∈ splitOn47 b, 47 ∉ s := by
+  induction b with
+  | nil => intro s hs; simp [sp_nil] at hs; subst hs; simp
+  | cons c t ih =>
+    intro s hs
+    rw [sp_cons] at hs
+    split at hs
+    · rcases List.mem_cons.mp hs with rfl | hs
+      · simp
+      · exact ih s hs
+    · rename_i hc
+      rcases List.mem_cons.mp hs with rfl | hs
+      · have hh : 47 ∉ (splitOn47 t).headD [] := by
+          have := sp_head_tail t
+          exact ih _ (by rw [this]; simp)
+        intro hm
+        rcases List.mem_cons.mp hm with e | e
+        · exact hc (by simp [← e])
+        · exact hh e
+      · exact ih s (List.mem_of_mem_tail hs)
+
+theorem sp_foldl_join (acc : Bytes) (rest : List Bytes) (h : ∀ s ∈ rest, 47 ∉ s) :
+    splitOn47 (rest.foldl (fun acc x => acc ++ [47] ++ x) acc) = splitOn47 acc ++ rest := by
+  induction rest generalizing acc with
+  | nil => simp
+  | cons x xs ih =>
+    simp only [List.foldl_cons]
+    rw [ih _ (fun s hs => h s (by simp [hs]))]
+    have : acc ++ [47] ++ x = acc ++ 47 :: x := by simp
+    rw [this, sp_append_sep, sp_no47 x (h x (by simp))]
+    simp
+
+/-- joining segments without separators and splitting again gives the segments back -/
+theorem sp_joinSegs (L : List Bytes) (hne : L ≠ []) (h : ∀ s ∈ L, 47 ∉ s) : splitOn47 (joinSegs L) = L := by
+  cases L with
+  | nil => exact absurd rfl hne
+  | cons s rest =>
+    simp only [joinSegs]
+    rw [sp_foldl_join s rest (fun x hx => h x (by simp [hx])), sp_no47 s (h s (by simp))]
+    simp
+
+theorem cleanSegs_clean (L : List Bytes) (h : CleanDir L) : cleanSegs L = L := by
+  unfold cleanSegs
+  rw [cleanFold_noDots [] L (fun s hs => ⟨(h s hs).2.1, (h s hs).2.2⟩)]
+  have : L.filter (· ≠ []) = L := List.filter_eq_self.mpr (fun s hs => by simpa using (h s hs).1)
+  rw [this]; simp
+
+/-- a path below the directory of the root file: its segments are those of the root's directory followed
+    by at least one more, none of them empty, `.` or `..` -/
+def PathInside (root N : Bytes) : Prop :=
+  ∃ tail, tail ≠ [] ∧ splitOn47 N = (splitOn47 root).dropLast ++ tail ∧ CleanDir ((splitOn47 root).dropLast ++ tail)
+
+theorem safe_first_segment (name : Bytes) (hs : safe name) : (splitOn47 name).filter (· ≠ []) ≠ [] := by
+  obtain ⟨hne, hhead, _, _⟩ := hs
+  cases name with
+  | nil => exact absurd rfl hne
+  | cons c t =>
+    have hc : c ≠ 47 := by simpa using hhead
+    rw [sp_cons]
+    simp [hc]
+
+/-- **C14 (inside, every project)**: if the root file's path is clean, every file name the project can
+    reach — and so every path handed to `os.Stat` / `os.ReadFile` by `C14_project_accesses` — lies below
+    the directory of the root file: no INCLUDE chain, however long, leaves it. -/
+theorem C14_reach_inside (root : Bytes) (hroot : CleanDir (splitOn47 root)) (N : Bytes) (h : Reach root N) :
+    PathInside root N := by
+  induction h with
+  | root =>
+    refine ⟨[(splitOn47 root).getLast (sp_ne_nil root)], by simp, ?_, ?_⟩
+    · exact (List.dropLast_concat_getLast (sp_ne_nil root)).symm
+    · rw [List.dropLast_concat_getLast (sp_ne_nil root)]; exact hroot
+  | step N name _ hval ih =>
+    obtain ⟨tail, htne, hsp, hclean⟩ := ih
+    have hsafe := C14_name name hval
+    have hN : cleanSegs (splitOn47 N) = splitOn47 N := cleanSegs_clean _ (by rw [hsp]; exact hclean)
+    have hdrop : (splitOn47 N).dropLast = (splitOn47 root).dropLast ++ tail.dropLast := by
+      rw [hsp, List.dropLast_append_of_ne_nil htne]
+    have hdir : CleanDir ((splitOn47 root).dropLast ++ tail.dropLast) := by
+      intro s hs
+      apply hclean s
+      rcases List.mem_append.mp hs with h1 | h1
+      · exact List.mem_append_left _ h1
+      · exact List.mem_append_right _ (List.dropLast_subset _ h1)
+    have hF := safe_first_segment name hsafe
+    have hjoin : joinDir N name = joinSegs ((splitOn47 root).dropLast ++ tail.dropLast ++ (splitOn47 name).filter (· ≠ [])) := by
+      simp only [joinDir, hN, hdrop]
+      rw [C14_inside _ name hdir hsafe]
+    have hall47 : ∀ s ∈ (splitOn47 root).dropLast ++ tail.dropLast ++ (splitOn47 name).filter (· ≠ []), 47 ∉ s := by
+      intro s hs
+      rcases List.mem_append.mp hs with h1 | h1
+      · rcases List.mem_append.mp h1 with h2 | h2
+        · exact sp_segs_no47 root s (List.dropLast_subset _ h2)
+        · have : s ∈ splitOn47 N := by rw [hsp]; exact List.mem_append_right _ (List.dropLast_subset _ h2)
+          exact sp_segs_no47 N s this
+      · exact sp_segs_no47 name s (List.mem_filter.mp h1).1
+    refine ⟨tail.dropLast ++ (splitOn47 name).filter (· ≠ []), ?_, ?_, ?_⟩
+    · intro he
+      exact hF (List.append_eq_nil_iff.mp he).2
+    · rw [hjoin, sp_joinSegs _ (by intro he; exact hF (List.append_eq_nil_iff.mp he).2) hall47, List.append_assoc]
+    · rw [← List.append_assoc]
+      intro s hs
+      rcases List.mem_append.mp hs with h1 | h1
+      · exact hdir s h1
+      · have hm := List.mem_filter.mp h1
+        exact ⟨by simpa using hm.2, (hsafe.2.2.2 s hm.1).1, (hsafe.2.2.2 s hm.1).2⟩
+
+/-- **C14 (every project, every access)**: for a root file with a clean relative path, whatever the files,
+    the include graph and the fuel, every path the scanning stage hands to `os.Stat` / `os.ReadFile` —
+    before a successful end or before an error — lies below the directory of the root file. -/
+theorem C14_project_accesses_inside (fsys : FileSys) (n : Nat) (rootName : Bytes) (content : Array UInt8)
+    (lenAt : BodyKind → Nat → LenAnswer) (banned : List Kind) (hroot : CleanDir (splitOn47 rootName)) :
+    (∀ c', Core.run fsys n { current := { name := rootName, env := mkEnv content lenAt, sc := Sc.init .stateRoot }, banned := banned } = .ok c' →
+        ∀ a ∈ c'.accesses, PathInside rootName a.2) ∧
+    (∀ e, Core.run fsys n { current := { name := rootName, env := mkEnv content lenAt, sc := Sc.init .stateRoot }, banned := banned } = .error (.err e) →
+        ∀ a ∈ e.acc, PathInside rootName a.2) := by
+  have key : ∀ a : String × Bytes, AccessOk rootName a → PathInside rootName a.2 := by
+    rintro a ⟨N, name, hN, hval, ha⟩
+    rw [ha]
+    exact C14_reach_inside rootName hroot _ (Reach.step N name hN hval)
+  have h := C14_project_accesses fsys n rootName content lenAt banned
+  exact ⟨fun c' hc a ha => key a (h.1 c' hc a ha), fun e he a ha => key a (h.2 e he a ha)⟩
+
+/-- non-vacuity: the root `proj/root.jst` including `sub/a.jst`, which includes `b.jst` -/
+example : joinDir (strBytes "proj/root.jst") (strBytes "sub/a.jst") = strBytes "proj/sub/a.jst" := by decide +kernel
+example : joinDir (strBytes "proj/sub/a.jst") (strBytes "b.jst") = strBytes "proj/sub/b.jst" := by decide +kernel
+example : splitOn47 (strBytes "proj/sub/b.jst") = (splitOn47 (strBytes "proj/root.jst")).dropLast ++ [strBytes "sub", strBytes "b.jst"] := by
+  decide +kernel
+
 /-- non-vacuity and the repaired witnesses -/
 def verdict (n : Bytes) : Option NameErr :=
   match validateIncludeFileName n with
